@@ -464,3 +464,104 @@ def socket_cuts(tier, seed, only=None):
         except ValueError:
             pass
     return dict(evaluations=n, distinct_nontrivial=len(seen), failures=fails[:20], loopback=loopback)
+
+
+# ====================================================================== C09 / C07: results of two calls are independent objects
+@bounded('meta-and-file-results-are-independent', ('C09', 'C07'), 'every meta type (defaults, 2 value sets each) : bytes() / from_bytes twice with every attribute and the list of '
+         'the first result edited in between; 40 (400 thorough) small random files: save, load, edit every message of the loaded file (times, values, appended '
+         'messages), load the same bytes again and save the untouched original again: same events, same bytes')
+def results_independent(tier, seed, only=None):
+    import io
+    import mido
+    from mido.midifiles.meta import MetaMessage
+    from . import spec_meta as M
+    rng = random.Random(seed)
+    fails, n, seen = [], 0, set()
+
+    def value(kind, lo, hi, which):
+        if kind == 'int':
+            return [lo, hi, (lo + hi) // 2][which]
+        if kind == 'text':
+            return ['', 'abc', 'caf\xe9 \xfc'][which]
+        if kind == 'rate':
+            return [24, 25, 30][which]
+        if kind == 'key':
+            return ['C', 'F#m', 'Cb'][which]
+        if kind == 'pow2':
+            return [1, 4, 2 ** 20][which]
+        if kind == 'bytes':
+            return [(), (1, 2, 3), (255, 0)][which]
+        raise KeyError(kind)
+
+    for t in M.ALL_META:
+        for which in range(3):
+            n += 1
+            seen.add((t, which))
+            try:
+                kw = {nm: value(kind, lo, hi, which) for (nm, kind, lo, hi, dflt) in M.META[t][1]}
+                if t == 'smpte_offset':
+                    kw['hours'] = min(kw.get('hours', 0), 23)          # known finding K1: hours >= 32 (outside this stand-in)
+                m = MetaMessage(t, time=which, **kw)
+                ref = repr(m)
+                b1 = m.bytes()
+                want = list(b1)
+                a = MetaMessage.from_bytes(list(want))
+                ok, detail = a == m.copy(time=0), 'first decode %r' % (a,)
+                if ok:
+                    b1.append(7)
+                    b1[0] = 0
+                    a.time = 99
+                    for (nm, kind, lo, hi, dflt) in M.META[t][1]:
+                        setattr(a, nm, value(kind, lo, hi, (which + 1) % 3) if not (t == 'smpte_offset' and nm == 'hours') else 1)
+                    again = MetaMessage.from_bytes(list(want))
+                    if again != m.copy(time=0) or again is a or m.bytes() != want or repr(m) != ref or MetaMessage(t, time=which, **kw).bytes() != want:
+                        ok, detail = False, 'after the first results were edited: decode %r, bytes %r, message %r; expected %r / %r' % (again, m.bytes(), m, m.copy(time=0), want)
+            except Exception as ex:      # noqa
+                ok, detail = False, repr(ex)
+            if not ok:
+                fails.append(dict(clause='a meta message decoded / encoded again does not depend on what callers did with earlier results', inputs=dict(type=t, value_set=which), detail=detail[:300]))
+    for trial in range(40 if tier == 'quick' else 400):
+        n += 1
+        seen.add(('file', trial))
+        try:
+            tracks = []
+            for _ in range(rng.randrange(1, 4)):
+                tr = mido.MidiTrack()
+                for _ in range(rng.randrange(0, 6)):
+                    r = rng.random()
+                    if r < 0.4:
+                        tr.append(mido.Message('note_on', note=rng.randrange(128), velocity=rng.randrange(128), time=rng.randrange(0, 500)))
+                    elif r < 0.55:
+                        tr.append(mido.Message('sysex', data=[rng.randrange(128) for _ in range(rng.randrange(0, 4))], time=rng.randrange(0, 50)))
+                    elif r < 0.7:
+                        tr.append(MetaMessage('track_name', name=rng.choice(['', 'x', 'Piano']), time=rng.randrange(0, 50)))
+                    elif r < 0.85:
+                        tr.append(MetaMessage('set_tempo', tempo=rng.randrange(1, 16777216), time=rng.randrange(0, 50)))
+                    else:
+                        tr.append(mido.UnknownMetaMessage(0x60, data=[rng.randrange(256)], time=rng.randrange(0, 50)))
+                tracks.append(tr)
+            mf = mido.MidiFile(type=1, ticks_per_beat=rng.choice([96, 480]), tracks=tracks)
+            snapshot = repr(mf)
+            buf = io.BytesIO()
+            mf.save(file=buf)
+            raw = buf.getvalue()
+            one = mido.MidiFile(file=io.BytesIO(raw))
+            first = repr(one)
+            for tr in one.tracks:
+                for msg in tr:
+                    msg.time = msg.time + 17
+                    if msg.type == 'note_on':
+                        msg.note = (msg.note + 1) % 128
+                    elif msg.type == 'track_name':
+                        msg.name = msg.name + '!'
+                tr.append(mido.Message('clock'))
+            two = mido.MidiFile(file=io.BytesIO(raw))
+            buf2 = io.BytesIO()
+            mf.save(file=buf2)
+            ok = repr(two) == first and buf2.getvalue() == raw and repr(mf) == snapshot
+            detail = 'second load %r, first load had %r; second save equal: %r; original unchanged: %r' % (repr(two)[:120], first[:120], buf2.getvalue() == raw, repr(mf) == snapshot)
+        except Exception as ex:      # noqa
+            ok, detail = False, repr(ex)
+        if not ok:
+            fails.append(dict(clause='loading / saving again does not depend on what callers did with an earlier loaded file', inputs=dict(seed=seed, trial=trial), detail=detail[:400]))
+    return dict(evaluations=n, distinct_nontrivial=len(seen), failures=fails[:20])
